@@ -104,6 +104,11 @@ class Domain(object):
                 vs = ["v%d" % j for j in range(nv)]
             elif vfl == "tv":
                 vs = [TV(j) for j in range(nv)]
+            elif vfl == "mlist":
+                # MUTABLE values: every write stores a fresh list (val()
+                # copies), which an operation may later change in place and
+                # assign again under the same key
+                vs = [[j] for j in range(nv)]
             elif vfl == "fset":
                 # unequal but unordered (neither < nor >) values
                 vs = [frozenset([j]) for j in range(nv)]
@@ -120,6 +125,8 @@ class Domain(object):
         return self.keys[i]
 
     def val(self, j):
+        if self.vflavor == "mlist":
+            return list(self.vals[j])
         return self.vals[j]
 
     def sortkey(self, k):
@@ -144,6 +151,8 @@ class Domain(object):
     def vid(self, v):
         if type(v) is TV:
             return ("tv", v.n)
+        if type(v) is list:
+            return ("ml",) + tuple(v)
         return v
 
     # "plain" identities: equal to kid()/vid() by value but never the object
